@@ -53,14 +53,6 @@ pub mod tokio_net {
 }
 pub mod tokio { pub mod net { pub use super::super::tokio_net::TcpStream; } }
 
-pub trait VxMapErr<T> { fn vx_map_err(self) -> Result<T>; }
-impl<T, E> VxMapErr<T> for std::result::Result<T, E> {
-    // .map_err(closure building an AnyTlsError): keeps the Ok payload, the error value is opaque
-    #[verifier::external_body]
-    fn vx_map_err(self) -> (r: Result<T>)
-        ensures self is Ok ==> r is Ok && r->Ok_0 == self->Ok_0, self is Err ==> r is Err
-    { unimplemented!() }
-}
 pub assume_specification<T: PartialEq> [<[T]>::contains] (s: &[T], x: &T) -> (r: bool)
     ensures r == s@.contains(*x);
 
